@@ -51,3 +51,33 @@ func verifHarness_C09_frame_conf(via int) {
 	verifAssert(w.OutSignatureLinkID == link && w.OutKey == key, "C09/P/writer-has-the-link-id-and-outgoing-key")
 	verifReach("C09/P")
 }
+
+// C09, the deprecated message path of frame.Writer without a key: one WriteMessage from an arbitrary counter state is
+// the spec frame of the configured version (version 0 = unset means 2), with the configured ids (component 1 when
+// unset), compatibility flags zero, the counter's sequence number and a correct checksum; the counter advances by one.
+func verifHarness_C09_framewriter_message(version int, shape int) {
+	sys, comp, s := verifNondetU8(), verifNondetU8(), verifNondetU8()
+	rec := &verifRecWriter{}
+	w := &Writer{ByteWriter: rec, DialectRW: verifDialectRW(), OutVersion: WriterOutVersion(version), OutSystemID: sys, OutComponentID: comp}
+	verifAssert(w.Initialize() == nil, "C09/FW/init")
+	w.nextSeqNumber = s
+	msg, full, spec := VerifMsg(shape, 2)
+	verifAssert(w.WriteMessage(msg) == nil, "C09/FW/write-ok")
+	if comp == 0 {
+		comp = 1
+	}
+	var exp []byte
+	if version == 1 {
+		payload := full[:spec.SizeNormal()]
+		ck := verifSpecChecksumV1(s, sys, comp, byte(spec.ID()), payload, spec.CRCExtra())
+		exp = verifSpecV1(s, sys, comp, byte(spec.ID()), payload, ck)
+	} else {
+		payload := VerifTruncate(full)
+		ck := verifSpecChecksumV2(0, 0, s, sys, comp, spec.ID(), payload, spec.CRCExtra())
+		exp = verifSpecV2(0, 0, s, sys, comp, spec.ID(), payload, ck, false, 0, 0, nil)
+	}
+	verifAssert(rec.calls == 1, "C09/FW/one-frame-one-write")
+	verifAssert(verifEqBytes(rec.buf, exp), "C09/FW/wire-is-spec-frame")
+	verifAssert(w.nextSeqNumber == s+1, "C09/FW/sequence-advances-by-one-mod-256")
+	verifReach("C09/FW")
+}
